@@ -339,38 +339,91 @@ Section chg_induction.
     end.
 End chg_induction.
 
-Lemma to_changes_map l : Forall (fun c => to_change (to_data c) = Some c) l -> to_changes (map to_data l) = Some l.
+Fixpoint chg_depth (c : chg) : nat :=
+  match c with CSet _ cs _ => S (list_max (map chg_depth cs)) | _ => 0 end.
+
+Lemma list_max_in {A} (f : A -> nat) l x : In x l -> f x <= list_max (map f l).
+Proof.
+  intros H. assert (E : list_max (map f l) <= list_max (map f l)) by lia.
+  apply list_max_le in E. rewrite Forall_forall in E. apply E. apply in_map. exact H.
+Qed.
+
+Lemma map_m_to_data n l :
+  Forall (fun c => to_change n (to_data c) = Ok c) l -> map_m (to_change n) (map to_data l) = Ok l.
 Proof.
   induction 1 as [|c l Hc _ IH]; [reflexivity|].
-  cbn [map to_changes]. rewrite Hc, IH. reflexivity.
+  cbn [map map_m]. rewrite Hc. cbn [bind]. rewrite IH. reflexivity.
 Qed.
 
-(* the local loop of to_change is to_changes *)
-Lemma to_change_set_unfold d cs t :
-  to_change (PTuple [PStr s_ChangeSet; PTuple [d; PList cs; t]]) = option_map (fun l => CSet d l t) (to_changes cs).
+Lemma to_change_set n d cs t :
+  to_change (S n) (PTuple [PStr s_ChangeSet; PTuple [d; PList cs; t]])
+  = bind (map_m (to_change n) cs) (fun l' => Ok (CSet d l' t)).
+Proof. reflexivity. Qed.
+
+(* enough fuel: ChangeToData's output converts back to the change it came from *)
+Lemma to_change_to_data c : forall n, chg_depth c <= n -> to_change (S n) (to_data c) = Ok c.
 Proof.
-  cbn [to_change]. change (text_eqb s_ChangeSet s_ChangeSet) with true. cbv iota.
-  reflexivity.
+  induction c using chg_ind'; intros k Hk; try reflexivity.
+  cbn [chg_depth] in Hk. cbn [to_data]. rewrite to_change_set.
+  rewrite map_m_to_data; [reflexivity|].
+  destruct k as [|m]; [lia|].
+  rewrite Forall_forall in *. intros c Hc. apply H; [exact Hc|].
+  pose proof (list_max_in chg_depth cs c Hc). lia.
 Qed.
 
-Lemma to_change_to_data c : to_change (to_data c) = Some c.
+Lemma to_data_depth c : chg_depth c + 2 <= pval_depth (to_data c) \/ chg_depth c = 0.
 Proof.
-  induction c using chg_ind'; try reflexivity.
-  cbn [to_data]. rewrite to_change_set_unfold. rewrite to_changes_map by assumption. reflexivity.
+  induction c using chg_ind'; try (right; reflexivity). left.
+  cbn [to_data chg_depth pval_depth map list_max fold_right].
+  rewrite map_map.
+  assert (E : list_max (map chg_depth cs) <= list_max (map (fun x => pval_depth (to_data x)) cs)).
+  { apply list_max_le. rewrite Forall_forall. intros k Hk. apply in_map_iff in Hk.
+    destruct Hk as (c & <- & Hc). rewrite Forall_forall in H. specialize (H c Hc).
+    pose proof (list_max_in (fun x => pval_depth (to_data x)) cs c Hc). cbn beta in H0. lia. }
+  lia.
 Qed.
 
-Lemma to_changes_to_data l : to_changes (map to_data l) = Some l.
-Proof. apply to_changes_map. apply Forall_forall. intros c _. apply to_change_to_data. Qed.
+Lemma to_data_depth_le c : chg_depth c <= pval_depth (to_data c).
+Proof. destruct (to_data_depth c); lia. Qed.
+
+Lemma map_m_hist n l :
+  list_max (map (fun c => pval_depth (to_data c)) l) < n ->
+  map_m (to_change n) (map to_data l) = Ok l.
+Proof.
+  intros H. apply map_m_to_data. rewrite Forall_forall. intros c Hc.
+  destruct n as [|m]; [lia|]. apply to_change_to_data.
+  pose proof (list_max_in (fun c => pval_depth (to_data c)) l c Hc). cbn beta in H0.
+  pose proof (to_data_depth_le c). lia.
+Qed.
 
 Lemma load_history_hist_data undo redo : load_history (Loaded (hist_data undo redo)) = HOk undo redo.
 Proof.
-  unfold load_history, hist_data. cbn [seq_items]. rewrite !to_changes_to_data. reflexivity.
+  unfold load_history, hist_data.
+  set (v := PList [PList (map to_data undo); PList (map to_data redo)]).
+  assert (Du : list_max (map (fun c => pval_depth (to_data c)) undo) < S (pval_depth v)).
+  { unfold v. cbn [pval_depth map list_max fold_right]. rewrite !map_map. lia. }
+  assert (Dr : list_max (map (fun c => pval_depth (to_data c)) redo) < S (pval_depth v)).
+  { unfold v. cbn [pval_depth map list_max fold_right]. rewrite !map_map. lia. }
+  remember (S (pval_depth v)) as n eqn:En. clear En. subst v. cbn [py_index nth_error bind py_iter].
+  rewrite (map_m_hist _ _ Du), (map_m_hist _ _ Dr). reflexivity.
 Qed.
 
 (* ------------------------------------------------------------------------------------------------ *)
-(* object db consumer                                                                                *)
-Lemma load_files_ok v : files_ok v = true -> load_files (Loaded v) = OOk v.
+(* dict consumers: MemoryDB._load_files and AutoImport take whatever was unpickled                   *)
+Lemma load_files_dict v : is_dict v = true -> load_files (Loaded v) = OOk v.
 Proof. destruct v; cbn; try discriminate. reflexivity. Qed.
+
+Lemma files_ok_dict v : files_ok v = true -> is_dict v = true.
+Proof. destruct v; cbn; try discriminate. reflexivity. Qed.
+
+Lemma names_ok_dict v : names_ok v = true -> is_dict v = true.
+Proof. destruct v; cbn; try discriminate. reflexivity. Qed.
+
+Lemma load_files_ok v : files_ok v = true -> load_files (Loaded v) = OOk v.
+Proof. intros H. apply load_files_dict, files_ok_dict, H. Qed.
+
+Lemma load_files_total r : (exists v, load_files r = OOk v) \/ (exists e, r = Raised e) \/ r = OutOfFuel.
+Proof. destruct r as [v|e|]; [left|right; left; eauto|right; right; reflexivity]. destruct v; cbn; eauto. Qed.
 
 (* ------------------------------------------------------------------------------------------------ *)
 (* statements in the form used by Props/C18.v                                                        *)
@@ -397,6 +450,25 @@ Proof.
     rewrite R, <- Hv, E. unfold history_write_val. apply load_history_hist_data.
 Qed.
 
+(* any data file whose consumer takes the loaded dict as it is (objectdb, globalnames) *)
+Lemma dict_file_usable (shape : pval -> bool) unpickle catches ws d0 d f v0 :
+  (forall v, shape v = true -> is_dict v = true) -> shape (PDict []) = true ->
+  unpickle [] = Eof -> repaired catches ->
+  Forall (good_write unpickle) ws ->
+  (forall w, In w ws -> w_file w = f -> shape (w_val w) = true) ->
+  load_files (read_data unpickle catches d0 f) = OOk v0 -> shape v0 = true ->
+  crash_state (save_steps ws) d0 d ->
+  exists v, load_files (read_data unpickle catches d f) = OOk v /\ shape v = true
+            /\ (v = v0 \/ v = PDict [] \/ written f ws v).
+Proof.
+  intros Hd Hempty He [Hc1 Hc2] Hg Hw H0 Hok0 Hc.
+  destruct (reader_total unpickle catches He ws d0 d f Hc1 Hc2 Hg Hc) as [R|[R|(v & (w & Hin & Hf & Hv) & R)]].
+  - exists v0. rewrite R. auto.
+  - exists (PDict []). rewrite R. cbn. auto.
+  - exists v. rewrite R. assert (Hok : shape v = true) by (rewrite <- Hv; apply Hw; auto).
+    rewrite load_files_dict by (apply Hd; exact Hok). repeat split; auto. right. right. exists w. auto.
+Qed.
+
 Lemma objectdb_usable unpickle catches ws d0 d v0 :
   unpickle [] = Eof -> repaired catches ->
   Forall (good_write unpickle) ws ->
@@ -405,14 +477,17 @@ Lemma objectdb_usable unpickle catches ws d0 d v0 :
   crash_state (save_steps ws) d0 d ->
   exists v, load_files (read_data unpickle catches d Objectdb) = OOk v /\ files_ok v = true
             /\ (v = v0 \/ v = PDict [] \/ written Objectdb ws v).
-Proof.
-  intros He [Hc1 Hc2] Hg Hw H0 Hok0 Hc.
-  destruct (reader_total unpickle catches He ws d0 d Objectdb Hc1 Hc2 Hg Hc) as [R|[R|(v & (w & Hin & Hf & Hv) & R)]].
-  - exists v0. rewrite R. auto.
-  - exists (PDict []). rewrite R. cbn. auto.
-  - exists v. rewrite R. assert (Hok : files_ok v = true) by (rewrite <- Hv; apply Hw; auto).
-    rewrite load_files_ok by exact Hok. repeat split; auto. right. right. exists w. auto.
-Qed.
+Proof. apply (dict_file_usable files_ok); [exact files_ok_dict|reflexivity]. Qed.
+
+Lemma globalnames_usable unpickle catches ws d0 d v0 :
+  unpickle [] = Eof -> repaired catches ->
+  Forall (good_write unpickle) ws ->
+  (forall w, In w ws -> w_file w = Globalnames -> names_ok (w_val w) = true) ->
+  load_names (read_data unpickle catches d0 Globalnames) = OOk v0 -> names_ok v0 = true ->
+  crash_state (save_steps ws) d0 d ->
+  exists v, load_names (read_data unpickle catches d Globalnames) = OOk v /\ names_ok v = true
+            /\ (v = v0 \/ v = PDict [] \/ written Globalnames ws v).
+Proof. apply (dict_file_usable names_ok); [exact names_ok_dict|reflexivity]. Qed.
 
 (* ------------------------------------------------------------------------------------------------ *)
 (* the table instance satisfies the laws whenever the boolean check says so                          *)
@@ -634,4 +709,257 @@ Proof.
   apply (delays_swap [] (P History) 1%N (Append (J History) 2%N) [Close (J History); Close (P History)]); [reflexivity|].
   apply (delays_swap [Append (J History) 2%N] (P History) 1%N (Close (J History)) [Close (P History)]); [reflexivity|].
   apply delays_refl.
+Qed.
+
+(* ------------------------------------------------------------------------------------------------ *)
+(* the abstract writer: its direct meaning is the run of its translation into steps                  *)
+Lemma run_ext l : forall d d', (forall x, d x = d' x) -> forall x, run l d x = run l d' x.
+Proof. intros d d' H x. rewrite !run_proj, H. reflexivity. Qed.
+
+Lemma run_appends_other x bs d y : file_eqb x y = false -> run (map (Append x) bs) d y = d y.
+Proof.
+  intros E. rewrite run_proj, proj_appends_other by exact E. reflexivity.
+Qed.
+
+Lemma run_appends_none x bs d : d x = None -> run (map (Append x) bs) d x = None.
+Proof.
+  intros H. rewrite run_proj, proj_appends_same, H. induction bs; cbn; auto.
+Qed.
+
+Lemma exec_tev_steps e s0 :
+  trace_steps [e] = Some s0 -> forall d y, exec_tev e d y = run s0 d y.
+Proof.
+  destruct e as [x [|]|x bs|x]; cbn; intros E; inversion E; subst; intros d y; cbn.
+  - reflexivity.
+  - rewrite app_nil_r. destruct (d x) as [c|] eqn:Hx.
+    + unfold upd. destruct (file_eqb x y) eqn:Exy.
+      * apply file_eqb_eq in Exy. subst y. symmetry. apply run_appends_content. exact Hx.
+      * symmetry. apply run_appends_other. exact Exy.
+    + destruct (file_eqb x y) eqn:Exy.
+      * apply file_eqb_eq in Exy. subst y. rewrite run_appends_none by exact Hx. exact Hx.
+      * symmetry. apply run_appends_other. exact Exy.
+  - unfold do_step. cbn. unfold upd. destruct (file_eqb x y) eqn:Exy; [|reflexivity].
+    apply file_eqb_eq in Exy. subst. reflexivity.
+Qed.
+
+Lemma trace_steps_cons e r s :
+  trace_steps (e :: r) = Some s -> exists s0 s1, trace_steps [e] = Some s0 /\ trace_steps r = Some s1 /\ s = s0 ++ s1.
+Proof.
+  cbn. destruct (trace_steps r) as [s1|]; [|discriminate].
+  destruct e as [x [|]|x bs|x]; intros E; inversion E; subst.
+  - exists [OpenTrunc x], s1. auto.
+  - exists (map (Append x) bs ++ []), s1. rewrite app_nil_r. auto.
+  - exists [Close x], s1. auto.
+Qed.
+
+Lemma trace_simulation t : forall s d, trace_steps t = Some s -> forall x, exec_trace t d x = run s d x.
+Proof.
+  induction t as [|e r IH]; intros s d E x.
+  - inversion E. reflexivity.
+  - destruct (trace_steps_cons e r s E) as (s0 & s1 & E0 & E1 & ->).
+    cbn [exec_trace]. rewrite run_app. rewrite (IH s1 _ E1).
+    apply run_ext. intros y. apply exec_tev_steps. exact E0.
+Qed.
+
+(* ------------------------------------------------------------------------------------------------ *)
+(* exact buffering: its crash states are crash states, and every byte prefix is one of them          *)
+Lemma buffered_is_crash_state prog d0 d : buffered_crash_state prog d0 d -> crash_state prog d0 d.
+Proof. intros (l & k & H & Hd). exists l, k. split; [apply delays_schedule; exact H|exact Hd]. Qed.
+
+Lemma delays_ctx a c p l : delays p l -> delays (a ++ p ++ c) (a ++ l ++ c).
+Proof.
+  induction 1 as [l|a0 x b s c0 l Hne _ IH]; [apply delays_refl|].
+  replace (a ++ (a0 ++ Append x b :: s :: c0) ++ c) with ((a ++ a0) ++ Append x b :: s :: (c0 ++ c))
+    by (rewrite <- !app_assoc; reflexivity).
+  apply delays_swap; [exact Hne|].
+  replace ((a ++ a0) ++ s :: Append x b :: c0 ++ c) with (a ++ (a0 ++ s :: Append x b :: c0) ++ c)
+    by (rewrite <- !app_assoc; reflexivity).
+  exact IH.
+Qed.
+
+(* a step on another file overtakes a block of pending appends *)
+Lemma delays_block_one x s bs : file_eqb (step_file s) x = false ->
+  forall a c l, delays (a ++ s :: map (Append x) bs ++ c) l -> delays (a ++ map (Append x) bs ++ s :: c) l.
+Proof.
+  intros Hne. induction bs as [|b bs IH] using rev_ind; intros a c l H; [exact H|].
+  rewrite map_app in *. cbn [map] in *. rewrite <- app_assoc in *. cbn [app] in *.
+  rewrite app_assoc. apply delays_swap; [exact Hne|]. rewrite <- app_assoc.
+  apply IH. exact H.
+Qed.
+
+Lemma delays_block x bs ss : Forall (fun s => file_eqb (step_file s) x = false) ss ->
+  forall a c l, delays (a ++ ss ++ map (Append x) bs ++ c) l -> delays (a ++ map (Append x) bs ++ ss ++ c) l.
+Proof.
+  induction 1 as [|s ss Hs _ IH]; intros a c l H; [exact H|].
+  cbn [app]. apply delays_block_one; [exact Hs|].
+  replace (a ++ s :: map (Append x) bs ++ ss ++ c) with ((a ++ [s]) ++ map (Append x) bs ++ ss ++ c)
+    by (rewrite <- app_assoc; reflexivity).
+  apply IH. rewrite <- app_assoc. exact H.
+Qed.
+
+Lemma partial_rest_delays w np nj : delays (write_steps w) (partial_write w np nj ++ rest_write w np nj).
+Proof.
+  unfold write_steps, partial_write, rest_write.
+  rewrite <- (firstn_skipn np (w_pickle w)) at 1. rewrite <- (firstn_skipn nj (w_json w)) at 1.
+  rewrite !map_app, <- !app_assoc.
+  rewrite !(app_assoc [OpenTrunc (P (w_file w)); OpenTrunc (J (w_file w))]
+                      (map (Append (P (w_file w))) (firstn np (w_pickle w)))).
+  apply delays_block; [|apply delays_refl].
+  apply Forall_forall. intros s Hs. apply in_map_iff in Hs. destruct Hs as (b & <- & _). reflexivity.
+Qed.
+
+Lemma every_prefix_is_buffered_crash_state ws1 w ws2 np nj d0 :
+  buffered_crash_state (save_steps (ws1 ++ w :: ws2)) d0 (run (save_steps ws1 ++ partial_write w np nj) d0).
+Proof.
+  exists ((save_steps ws1 ++ partial_write w np nj) ++ rest_write w np nj ++ save_steps ws2).
+  exists (length (save_steps ws1 ++ partial_write w np nj)). split.
+  - rewrite save_steps_app. change (save_steps (w :: ws2)) with (write_steps w ++ save_steps ws2).
+    rewrite <- app_assoc.
+    replace (partial_write w np nj ++ rest_write w np nj ++ save_steps ws2)
+      with ((partial_write w np nj ++ rest_write w np nj) ++ save_steps ws2) by (rewrite <- app_assoc; reflexivity).
+    apply delays_ctx. apply partial_rest_delays.
+  - intros x. rewrite firstn_app, firstn_all, Nat.sub_diag. cbn [firstn]. rewrite app_nil_r. reflexivity.
+Qed.
+
+(* ------------------------------------------------------------------------------------------------ *)
+(* several sessions: any number of saves, each interrupted anywhere or complete                      *)
+Lemma written_app_l f W ws v : written f W v -> written f (W ++ ws) v.
+Proof. intros (w & Hin & H). exists w. split; [apply in_or_app; left; exact Hin|exact H]. Qed.
+Lemma written_app_r f W ws v : written f ws v -> written f (W ++ ws) v.
+Proof. intros (w & Hin & H). exists w. split; [apply in_or_app; right; exact Hin|exact H]. Qed.
+
+Lemma sessions_reader_total unpickle catches :
+  unpickle [] = Eof -> catches ExEOF = true -> catches ExUnpickling = true ->
+  forall (d0 : disk) (W : list write) (d : disk) (f : dfile) (v0 : pval),
+    evolves unpickle d0 W d ->
+    read_data unpickle catches d0 f = Loaded v0 ->
+    read_data unpickle catches d f = Loaded v0
+    \/ read_data unpickle catches d f = Loaded PNone
+    \/ exists v, written f W v /\ read_data unpickle catches d f = Loaded v.
+Proof.
+  intros He Hc1 Hc2 d0 W d f v0 Hev H0.
+  induction Hev as [d d' Hd|d0 W d1 ws d2 _ IH Hg Hc].
+  - left. rewrite (read_data_ext unpickle catches d' d f (Hd (P f))). exact H0.
+  - specialize (IH H0).
+    assert (Step : forall v1, read_data unpickle catches d1 f = Loaded v1 ->
+              read_data unpickle catches d2 f = Loaded v1
+              \/ read_data unpickle catches d2 f = Loaded PNone
+              \/ exists v, written f ws v /\ read_data unpickle catches d2 f = Loaded v).
+    { intros v1 H1. exact (reader_total_old unpickle catches He Hc1 Hc2 ws d1 d2 f v1 Hg H1 Hc). }
+    destruct IH as [R|[R|(v & Hw & R)]].
+    + destruct (Step _ R) as [S|[S|(v' & Hw' & S)]]; auto.
+      right. right. exists v'. split; [apply written_app_r; exact Hw'|exact S].
+    + destruct (Step _ R) as [S|[S|(v' & Hw' & S)]]; auto.
+      right. right. exists v'. split; [apply written_app_r; exact Hw'|exact S].
+    + destruct (Step _ R) as [S|[S|(v' & Hw' & S)]]; auto.
+      * right. right. exists v. split; [apply written_app_l; exact Hw|exact S].
+      * right. right. exists v'. split; [apply written_app_r; exact Hw'|exact S].
+Qed.
+
+Lemma complete_is_crash_state prog d0 : crash_state prog d0 (run prog d0).
+Proof. exists prog, (length prog). split; [apply schedule_of_refl|]. intros x. rewrite firstn_all. reflexivity. Qed.
+
+(* ------------------------------------------------------------------------------------------------ *)
+(* the fuel of DataToChange's model always suffices: ExFuel never comes out of load_history          *)
+Lemma py_index_depth v i x : py_index v i = Ok x -> pval_depth x <= pval_depth v - 1.
+Proof.
+  destruct v; cbn [py_index]; try discriminate.
+  - destruct (nth_error s i); intros E; inversion E; cbn; lia.
+  - destruct (nth_error l i) eqn:En; intros E; inversion E; subst.
+    apply nth_error_In in En. pose proof (list_max_in pval_depth l x En). cbn [pval_depth]. lia.
+  - destruct (nth_error l i) eqn:En; intros E; inversion E; subst.
+    apply nth_error_In in En. pose proof (list_max_in pval_depth l x En). cbn [pval_depth]. lia.
+  - destruct (find _ kvs) as [kv|] eqn:Ef; intros E; inversion E; subst.
+    apply find_some in Ef. destruct Ef as [Hin _].
+    pose proof (list_max_in (fun kv => Nat.max (pval_depth (fst kv)) (pval_depth (snd kv))) kvs kv Hin) as H.
+    cbn beta in H. cbn [pval_depth]. lia.
+Qed.
+
+Lemma py_iter_depth v l x : py_iter v = Ok l -> In x l -> pval_depth x <= pval_depth v - 1.
+Proof.
+  destruct v; cbn [py_iter]; try discriminate; intros E Hin; inversion E; subst.
+  - apply in_map_iff in Hin. destruct Hin as (c & <- & _). cbn. lia.
+  - pose proof (list_max_in pval_depth l x Hin). cbn [pval_depth]. lia.
+  - pose proof (list_max_in pval_depth l x Hin). cbn [pval_depth]. lia.
+  - apply in_map_iff in Hin. destruct Hin as (kv & <- & Hin).
+    pose proof (list_max_in (fun kv => Nat.max (pval_depth (fst kv)) (pval_depth (snd kv))) kvs kv Hin) as H.
+    cbn beta in H. cbn [pval_depth]. lia.
+Qed.
+
+Lemma py_index_no_fuel v i : py_index v i <> Err ExFuel.
+Proof.
+  destruct v; cbn [py_index]; try discriminate.
+  - destruct (nth_error s i); discriminate.
+  - destruct (nth_error l i); discriminate.
+  - destruct (nth_error l i); discriminate.
+  - destruct (find _ kvs); discriminate.
+Qed.
+
+Lemma py_iter_no_fuel v : py_iter v <> Err ExFuel.
+Proof. destruct v; cbn; discriminate. Qed.
+
+Lemma map_m_no_fuel {A B} (f : A -> outcome B) l :
+  (forall x, In x l -> f x <> Err ExFuel) -> map_m f l <> Err ExFuel.
+Proof.
+  induction l as [|x l IH]; intros H; cbn [map_m]; [discriminate|].
+  destruct (f x) eqn:E; cbn [bind].
+  2:{ intro Hx. inversion Hx; subst. exact (H x (or_introl eq_refl) E). }
+  destruct (map_m f l) eqn:E2; cbn [bind]; [discriminate|].
+  intro Hx. inversion Hx; subst. apply IH; [|reflexivity]. intros y Hy. apply H. right. exact Hy.
+Qed.
+
+Lemma maker_of_char c : maker_of [c] = None.
+Proof.
+  unfold maker_of. cbn.
+  repeat match goal with |- context [N.eqb c ?k] => destruct (N.eqb c k); cbn end; reflexivity.
+Qed.
+
+Lemma index0_maker_depth data nm mk :
+  py_index data 0 = Ok (PStr nm) -> maker_of nm = Some mk -> 1 <= pval_depth data.
+Proof.
+  destruct data; cbn [py_index]; try discriminate; cbn [pval_depth]; try lia.
+  destruct (nth_error s 0); intros E; inversion E; subst. rewrite maker_of_char. discriminate.
+Qed.
+
+Lemma to_change_no_fuel n : forall v, pval_depth v < n -> to_change n v <> Err ExFuel.
+Proof.
+  induction n as [|m IH]; intros v Hd; [lia|].
+  cbn [to_change].
+  destruct (py_index v 0) as [name|e] eqn:E0; cbn [bind]; [|intro Hx; inversion Hx; subst; exact (py_index_no_fuel _ _ E0)].
+  destruct name; try discriminate.
+  destruct (maker_of s) as [mk|] eqn:Em; [|discriminate].
+  pose proof (index0_maker_depth _ _ _ E0 Em) as Hpos.
+  destruct (py_index v 1) as [a|e] eqn:E1; cbn [bind]; [|intro Hx; inversion Hx; subst; exact (py_index_no_fuel _ _ E1)].
+  destruct (py_iter a) as [args|e] eqn:Ea; cbn [bind]; [|intro Hx; inversion Hx; subst; exact (py_iter_no_fuel _ Ea)].
+  pose proof (py_index_depth _ _ _ E1) as Da.
+  assert (Children : forall cs, In cs args -> forall d t,
+            bind (py_iter cs) (fun l => bind (map_m (to_change m) l) (fun l' => Ok (CSet d l' t))) <> Err ExFuel).
+  { intros cs Hcs d t.
+    pose proof (py_iter_depth _ _ _ Ea Hcs) as Dcs.
+    destruct (py_iter cs) as [l|e] eqn:El; cbn [bind]; [|intro Hx; inversion Hx; subst; exact (py_iter_no_fuel _ El)].
+    destruct (map_m (to_change m) l) eqn:Em2; cbn [bind]; [discriminate|].
+    intro Hx. inversion Hx; subst. revert Em2. apply map_m_no_fuel. intros x Hin. apply IH.
+    pose proof (py_iter_depth _ _ _ El Hin). lia. }
+  destruct mk; destruct args as [|x1 [|x2 [|x3 [|x4 r]]]]; try discriminate.
+  - apply Children. right. left. reflexivity.
+  - apply Children. right. left. reflexivity.
+Qed.
+
+Lemma load_history_no_fuel v : load_history (Loaded v) <> HRaised ExFuel.
+Proof.
+  assert (Conv : forall x, pval_depth x <= pval_depth v - 1 ->
+            bind (py_iter x) (map_m (to_change (S (pval_depth v)))) <> Err ExFuel).
+  { intros x Dx. destruct (py_iter x) as [l|e] eqn:El; cbn [bind]; [|intro Hx; inversion Hx; subst; exact (py_iter_no_fuel _ El)].
+    apply map_m_no_fuel. intros y Hy. apply to_change_no_fuel.
+    pose proof (py_iter_depth _ _ _ El Hy). lia. }
+  assert (Side : forall i, bind (py_index v i) (fun x => bind (py_iter x) (map_m (to_change (S (pval_depth v)))))
+                           <> Err ExFuel).
+  { intros i. destruct (py_index v i) as [x|e] eqn:Ei; cbn [bind]; [|intro Hx; inversion Hx; subst; exact (py_index_no_fuel _ _ Ei)].
+    apply Conv. apply (py_index_depth _ _ _ Ei). }
+  unfold load_history.
+  destruct v; try discriminate;
+    (destruct (bind (py_index _ 0) _) as [us|e] eqn:E0;
+     [destruct (bind (py_index _ 1) _) as [rs|e] eqn:E1; [discriminate|]|];
+     intro H; inversion H; subst;
+     [eapply (Side 1); exact E1|eapply (Side 0); exact E0]).
 Qed.
